@@ -168,10 +168,18 @@ class FSocket:
         self.peer = None
         self.linger_ms = None       # ZeroMQ default: infinite
         self.unflushed = None       # addresses a message was queued for while nobody was there to take it
+        self.relaxed = False        # REQ_RELAXED: a new request may be sent although the previous one was never answered
+        self.correlate = False      # REQ_CORRELATE: replies to abandoned requests are discarded
+        self.req_id = 0
+        self.awaiting = False
 
     def set(self, opt=None, val=None, *a):
         if opt == 17:
             self.linger_ms = val
+        elif opt == 53:
+            self.relaxed = bool(val)
+        elif opt == 52:
+            self.correlate = bool(val)
 
     setsockopt = set
 
@@ -224,12 +232,17 @@ class FSocket:
         K.check_killed()
         frames = [bytes(p) for p in parts]
         if self.kind == 3:      # REQ
-            self.reply = []
-            K.net.send(self.link, self.addr, frames + [self])
+            if self.awaiting and not self.relaxed:
+                raise RuntimeError("Operation cannot be accomplished in current state")     # zmq EFSM
+            self.req_id += 1
+            self.awaiting = True
+            if self.correlate:
+                self.reply = []
+            K.net.send(self.link, self.addr, frames + [(self, self.req_id)])
         elif self.kind == 4:    # REP
-            peer = self.peer
+            peer, rid = self.peer
             lat = K.ch.uniform(*K.net.cfg.get("lat", (50_000, 50_000)))
-            K.at(K.now + lat, lambda: peer.reply.append(frames))
+            K.at(K.now + lat, lambda: peer.reply.append((rid, frames)))
         else:
             if self.kind == 8 and not _endpoint_up(self.addr):
                 if self.unflushed is None:
@@ -240,13 +253,19 @@ class FSocket:
 
     def _ready(self):
         if self.kind == 3:
+            if self.correlate:
+                self.reply = [r for r in self.reply if r[0] == self.req_id]
             return bool(self.reply)
         return bool(K.net.inbox.get(self.addr))
 
     def recv_multipart(self, *a, **kw):
         K.block(self._ready, None, "zrecv", self.addr)
         if self.kind == 3:
-            return self.reply.pop(0)
+            self.awaiting = False
+            rid, frames = self.reply.pop(0)
+            if rid != self.req_id:
+                K.probe("late_reply_taken_for_newer_request")
+            return frames
         fr = K.net.inbox[self.addr].pop(0)
         if self.kind == 4:
             self.peer = fr[-1]
@@ -292,6 +311,7 @@ def make_zmq():
     m = types.ModuleType("zmq")
     m.Context, m.Poller, m.Socket = FContext, FPoller, FSocket
     m.PUSH, m.PULL, m.REQ, m.REP, m.POLLIN, m.LINGER = 8, 7, 3, 4, 1, 17
+    m.REQ_RELAXED, m.REQ_CORRELATE, m.RCVTIMEO, m.SNDTIMEO = 53, 52, 27, 28
     m.__verif_fake__ = True
     return m
 
@@ -697,12 +717,24 @@ def install():
         f.__verif_real__ = real
         return f
 
+    def mono():
+        # a monotonic clock counts from an arbitrary origin (boot), per machine: unrelated to the wall clock's epoch, so code
+        # that mixes the two is wrong in the simulation exactly as it is in reality.  Origin = a function of the top-level process.
+        p = K.cur().proc
+        off = getattr(p, "_mono_off", None)
+        if off is None:
+            root = p
+            while root.parent is not None:
+                root = root.parent
+            from .kernel import splitmix64
+            off = p._mono_off = 1_000_000_000_000 + splitmix64(root.name.split(".")[0]) % 40_000_000_000_000
+        return K.now - K.t0 + off
     time.time_ns = disp(time.time_ns, lambda: K.now)
     time.time = disp(time.time, lambda: K.now / 1e9)
-    time.monotonic_ns = disp(time.monotonic_ns, lambda: K.now)
-    time.monotonic = disp(time.monotonic, lambda: K.now / 1e9)
-    time.perf_counter_ns = disp(time.perf_counter_ns, lambda: K.now)
-    time.perf_counter = disp(time.perf_counter, lambda: K.now / 1e9)
+    time.monotonic_ns = disp(time.monotonic_ns, mono)
+    time.monotonic = disp(time.monotonic, lambda: mono() / 1e9)
+    time.perf_counter_ns = disp(time.perf_counter_ns, mono)
+    time.perf_counter = disp(time.perf_counter, lambda: mono() / 1e9)
     time.sleep = disp(time.sleep, lambda s: K.sleep(int(s * 1e9)))
 
     real_socket = socket.socket
